@@ -2,6 +2,8 @@ SPECIFICATION Spec
 CONSTANTS
   Atomic = FALSE
   Readers = 1
+  Lookups = 1
+  NegCache = FALSE
   CachedView = FALSE
 INVARIANT Dump
 CHECK_DEADLOCK FALSE
